@@ -35,7 +35,7 @@ fn siblings(kind: &str, defs: &str) -> Vec<String> {
 }
 
 fn subjects_inner(rng: &mut Rng) -> (String, String, bool, &'static str) {
-    match rng.below(15) {
+    match rng.below(16) {
         0 => (
             "'shape = Circle[r: 'int] | Rect[w: 'int, h: 'int] | Tri['int, 'int, 'int], area = #'shape { | =Circle[r: r] => [r, r] __integer_multiply__ | =Rect[w: w, h: h] => [w, h] __integer_multiply__ | =Tri[a, b, c] => [a, [b, c] __integer_add__] __integer_add__ }".into(),
             format!("[Circle[r: {}] area, Rect[w: 2, h: {}] area, Tri[1, 2, 3] area]", rng.range(1, 9), rng.range(1, 9)),
@@ -127,6 +127,14 @@ fn subjects_inner(rng: &mut Rng) -> (String, String, bool, &'static str) {
             ),
             false,
             "repl-process-ref",
+        ),
+        13 => (
+            // values of one tuple shape whose tuple types arrive in DIFFERENT merges when the subject is
+            // entered as two REPL lines (the definition line first): they compare equal all the same
+            format!("sa = Some[{}]", 1),
+            "f = #('int | 'bin) { =x => Some[x] }, sb = 1 f, sc = 2 f, [[sb =&sa], [sa =&sb], [sc =&sa]]".to_string(),
+            false,
+            "equality-across-merges",
         ),
         12 => (
             // the entry captures several closures of ONE function literal with different captured
